@@ -2,6 +2,8 @@ import Driver.Proto
 import LadimModel.IBM.Sedimentation
 import LadimModel.IBM.Bio
 import LadimModel.IBM.Memory
+import LadimModel.IBM.Swim
+import LadimModel.Grid.Sample
 import LadimModel.IBM.Grain
 import LadimModel.IBM.Develop
 namespace Driver
@@ -158,10 +160,28 @@ def hMemDecides : Handler := do
   let p ← getN; let x ← getF; let y ← getF
   pure (outB (Memory.decides (if k == 0 then .snapshot else .alias) mem realloc ⟨p, x, y⟩))
 
+/-- `swim.saithe|swim.eel xmin xmax ymin ymax r c (r*c) sea^(r*c) x0 y0 x y` -> x y [alive] -/
+def hSwim (eel : Bool) : Handler := do
+  let xmin ← getF; let xmax ← getF; let ymin ← getF; let ymax ← getF
+  let r ← getN; let c ← getN
+  let bits ← getList getN
+  let x0 ← getF; let y0 ← getF; let x ← getF; let y ← getF
+  let sea : Float → Float → Bool := fun a b =>
+    let i := (GridSample.cellIndex c 0 a).toNat
+    let j := (GridSample.cellIndex r 0 b).toNat
+    bits.getD (j * c + i) 0 > 0
+  let ing := GridSample.ingrid xmin xmax ymin ymax
+  if eel then
+    let p := Swim.eelStep ing sea x0 y0 x y
+    pure s!"{outF p.1} {outF p.2}"
+  else
+    let p := Swim.saitheStep ing sea x0 y0 x y
+    pure s!"{outF p.1} {outF p.2.1} {outB p.2.2}"
+
 def ibmHandlers : List (String × Handler) :=
   [("sed.update", hSedUpdate), ("mine.update", hMineUpdate), ("sed.tau", hSedTau),
    ("egg.update", hEgg), ("lice.update", hLice), ("larva.update", hLarva),
    ("sandeel.z", hSandeelZ), ("eel.z", hEelZ), ("shrimp.vert", hShrimpVert),
-   ("shrimp.growth", hShrimpGrowth), ("vps.z", hVpsZ), ("vps.update", hVpsUpdate), ("mem.stuck", hMemStuck), ("mem.decides", hMemDecides), ("grain.cell", hGrainCell), ("grain.taucrit", hGrainTaucrit), ("sed.ladis", hLadis), ("dev.sandeel", hDevSandeel), ("dev.hatchtime", hDevHatch), ("dev.shrimplen", hDevShrimpLen)]
+   ("shrimp.growth", hShrimpGrowth), ("vps.z", hVpsZ), ("vps.update", hVpsUpdate), ("mem.stuck", hMemStuck), ("mem.decides", hMemDecides), ("swim.saithe", hSwim false), ("swim.eel", hSwim true), ("grain.cell", hGrainCell), ("grain.taucrit", hGrainTaucrit), ("sed.ladis", hLadis), ("dev.sandeel", hDevSandeel), ("dev.hatchtime", hDevHatch), ("dev.shrimplen", hDevShrimpLen)]
 
 end Driver
